@@ -147,11 +147,19 @@ struct Seen {
 	std::map<std::string, std::string> headers; // dictionary as stored (canonical names)
 	std::map<std::string, std::string> query;   // query() dictionary
 	std::vector<std::string> hlook, qlook;      // results of the planned header(name) / query(key) lookups
+	// The handler (1) enumerates query(), (2) looks up every planned key and HOLDS the returned const String&, (3) probes the
+	// absent keys, (4) reads again through the held references, (5) enumerates headers() and query() again.  `query` and
+	// `headers` are the enumerations of step 5, i.e. what the dictionaries say after lookups of absent names.
+	std::map<std::string, std::string> query_before;
+	std::vector<std::string> qlook_after, hlook_after; // step 4 (headers: looked up again, header() returns by value)
+	std::vector<std::string> qabsent, habsent;         // results of the probes of absent keys / names (must be empty)
+	std::vector<std::string> qabsent_keys;
 	bool options = false;
 };
 
 struct Plan { // lookups to perform on the i-th request the handler sees
 	std::vector<std::string> hnames, qkeys;
+	std::vector<std::string> qabsent, habsent; // names known not to have been sent
 };
 
 struct Opts {
@@ -183,21 +191,34 @@ public:
 		s.querystring = S(q.querystring());
 		s.proto = S(q.protocol());
 		s.body = S(q.body());
+		foreach2(asl::String & k, const asl::String& v, q.query())
+			s.query_before[S(k)] = S(v);
+		size_t i = seen.size();
+		static const Plan defplan = {{}, {}, {"zz-not-there"}, {"x-not-there"}};
+		const Plan& plan = i < opts->plans.size() ? opts->plans[i] : defplan;
+		std::vector<const asl::String*> held;
+		for (auto& k : plan.qkeys) {
+			const asl::String& v = q.query(A(k));
+			held.push_back(&v);
+			s.qlook.push_back(S(v));
+		}
+		for (auto& n : plan.hnames)
+			s.hlook.push_back(S(q.header(A(n))));
+		for (auto& k : plan.qabsent)
+			s.qabsent.push_back(S(q.query(A(k))));
+		s.qabsent_keys = plan.qabsent;
+		for (auto& n : plan.habsent)
+			s.habsent.push_back(S(q.header(A(n))));
+		for (auto* v : held)
+			s.qlook_after.push_back(S(*v)); // a reference handed out by query(k) stays valid and keeps its value
+		for (auto& n : plan.hnames)
+			s.hlook_after.push_back(S(q.header(A(n))));
 		foreach2(asl::String & k, const asl::String& v, q.headers())
 			s.headers[S(k)] = S(v);
 		foreach2(asl::String & k, const asl::String& v, q.query())
 			s.query[S(k)] = S(v);
-		size_t i = seen.size();
-		if (i < opts->plans.size()) {
-			for (auto& n : opts->plans[i].hnames)
-				s.hlook.push_back(S(q.header(A(n))));
-			for (auto& k : opts->plans[i].qkeys)
-				s.qlook.push_back(S(q.query(A(k))));
-		}
 		// accessors an application typically uses; they must be total on whatever was parsed
 		(void)q.hasHeader("Content-Type");
-		(void)q.header("x-not-there");
-		(void)q.query("zz-not-there");
 		(void)q.is("GET", "/a*");
 		(void)q.suffix();
 		(void)q.is("/d/index.html");
@@ -491,6 +512,18 @@ inline void check_universal(const Result& r, const std::string& stream, FailFn f
 			fail("request #" + std::to_string(i) + " handed to the application has '..' in path(): resource " + s.resource);
 		if (s.method.empty())
 			fail("request #" + std::to_string(i) + " handed to the application without a method");
+		bool really_absent = true;
+		for (auto& k : s.qabsent_keys)
+			if (s.query_before.count(k))
+				really_absent = false;
+		if (really_absent) {
+			for (size_t j = 0; j < s.qabsent.size(); j++)
+				if (!s.qabsent[j].empty())
+					fail("request #" + std::to_string(i) + ": query(k) of a parameter that is not in query() returned a non-empty value");
+			if (s.query != s.query_before)
+				fail("request #" + std::to_string(i) + ": query() lists " + std::to_string(s.query.size()) + " parameters after looking up an absent one, " +
+				     std::to_string(s.query_before.size()) + " before (resource " + s.resource + ")");
+		}
 	}
 	// (a stream that itself carries the marker can have it echoed, e.g. from Host into a redirect's Location: not a leak)
 	if (r.reply.find(C09_SECRET) != std::string::npos && stream.find("C09-SECRET") == std::string::npos)
